@@ -6,6 +6,7 @@ is made of, each with a non-vacuity `example`.
 import Nitime.Model.C01
 import Nitime.Lemmas.F64
 import Nitime.Lemmas.F64Bound
+import Nitime.Lemmas.C01Hist
 
 namespace Nitime.C01.Props
 open Nitime Nitime.C01 Nitime.Generated
@@ -181,11 +182,125 @@ theorem fits62_no_wrap (a b : Int) (ha : |a| < 2^62) (hb : |b| < 2^62) :
     |a + b| < 2^63 ∧ |a - b| < 2^63 := by
   constructor <;> (rw [abs_lt] at *; omega)
 
+/-! ### live objects: unit label and conversion factor as two attributes (session 3) -/
+open Nitime.C01Attr
+
+/-- the attribute discipline GENERATED from today's source (every return path of `TimeArray.__new__` per
+(copy, time-object input), `__array_finalize__` of both classes, `convert_unit`) keeps label and factor
+together: constructor and `convert_unit` paths write the requested label and the table's factor OF THAT
+LABEL, views inherit both, a view of a bare array gets a literal label and its factor -/
+theorem generated_discipline_consistent :
+    Discipline.current.consistent = true ∧ Discipline.currentUniform.consistent = true := by
+  decide
+
+/-- which reductions re-label a freshly constructed result and which hand out an element view (generated) -/
+theorem generated_reductions_pinned :
+    (["min", "max", "sum", "ptp"].map Generated.C01Ctor.timeArrayReduction = [.relabel, .view, .relabel, .relabel]) ∧
+    (["min", "max", "sum", "ptp"].map Generated.C01Ctor.uniformReduction = [.view, .view, .missing, .missing]) ∧
+    Generated.C01Ctor.uniformHasConvertUnit = false ∧ Generated.C01Ctor.uniformNew = [⟨.arg, .tableOfLabel⟩] := by
+  decide
+
+/-- INVARIANT over operation histories: from a time object whose factor is the factor of its label, every
+object made by any sequence of re-wrapping (copy True / False, unit given / None), `convert_unit`, views
+(slices, elements, fancy indexing, view casts, copies), views of bare arrays / unpickling, reductions and
+arithmetic — under ANY consistent discipline — again has `factor = factor_of(label)` -/
+theorem label_factor_consistent (D : Discipline) (hD : D.consistent = true) (o : TObj)
+    (h : o.attrs.fac = factor o.attrs.label) (ss : List Step) :
+    ∀ o' ∈ trace D o ss, o'.attrs.fac = factor o'.attrs.label :=
+  trace_inv hD o h ss
+
+/-- … in particular for today's source, from any constructed value -/
+theorem label_factor_consistent_current (src : TVal) (ss : List Step) :
+    (∀ o' ∈ trace Discipline.current (TObj.ofTVal src) ss, o'.attrs.fac = factor o'.attrs.label) ∧
+    (∀ o' ∈ trace Discipline.currentUniform (TObj.ofTVal src) ss, o'.attrs.fac = factor o'.attrs.label) :=
+  ⟨trace_inv generated_discipline_consistent.1 (TObj.ofTVal src) (show (TObj.ofTVal src).attrs.fac = _ from rfl) ss,
+   trace_inv generated_discipline_consistent.2 (TObj.ofTVal src) (show (TObj.ofTVal src).attrs.fac = _ from rfl) ss⟩
+
+theorem arith_unit {op : ArithOp} {self : TVal} {val : Operand} {t : TVal} (ha : arith op self val = .ok t) :
+    t.unit = self.unit := by
+  unfold arith at ha
+  generalize convertIfNeeded self val = c at ha
+  obtain ⟨b, sb⟩ := c
+  simp only at ha
+  cases hb : broadcast op.fn self.ps self.scalar b sb with
+  | error e => simp [hb] at ha
+  | ok r => simp only [hb, Except.ok.injEq] at ha; subst ha; rfl
+
+/-- hence every object of a history reads bare numbers in the unit IT REPORTS: the operators on live
+objects are the operators of the value model (`arith`, `compare`: `arith_exact`, `compare_exact`, … apply) -/
+theorem history_reads_in_own_unit (D : Discipline) (hD : D.consistent = true) (o : TObj)
+    (h : o.attrs.fac = factor o.attrs.label) (ss : List Step) (o' : TObj) (ho' : o' ∈ trace D o ss)
+    (val : Operand) :
+    convertIfNeededO o' val = convertIfNeeded o'.toTVal val ∧
+    (∀ op, (arithO D op o' val).map TObj.toTVal = arith op o'.toTVal val) ∧
+    (∀ op, compareO op o' val = compare op o'.toTVal val) := by
+  have hi : o'.Inv := trace_inv hD o h ss o' ho'
+  have hc := convertIfNeededO_eq o' hi val
+  refine ⟨hc, fun op => ?_, fun op => ?_⟩
+  · have := stepO_ar hD o' hi op val
+    rw [show stepO D o' (.ar op val) = arithO D op o' val from rfl] at this
+    rw [this]
+    cases ha : arith op o'.toTVal val with
+    | error e => rfl
+    | ok t =>
+      have hu : t.unit = o'.attrs.label := arith_unit ha
+      simp only [Except.map, TObj.toTVal, ← hu]
+  · simp only [compareO, compare, hc]
+    rfl
+
+/-- the steps of a history, described by the value model: re-wrapping = `ctorFrom` (instant kept, unit =
+requested or the source's — whatever `copy` is), `convert_unit` = `convertUnit`, reductions = `reduce`,
+arithmetic = `arith`; views keep the label and select payload; a stripped view keeps the payload -/
+theorem history_steps_follow_value_model (D : Discipline) (hD : D.consistent = true) (o : TObj)
+    (h : o.attrs.fac = factor o.attrs.label) :
+    (∀ u c, (stepO D o (.wrap u c)).map TObj.toTVal = .ok (ctorFrom u o.toTVal)) ∧
+    (∀ u, (stepO D o (.conv u)).map TObj.toTVal = .ok (convertUnit o.toTVal u)) ∧
+    (∀ k, ∃ o', stepO D o (.view k) = .ok o' ∧ o'.attrs = o.attrs ∧ (o'.ps, o'.scalar) = k.payload (o.ps, o.scalar)) ∧
+    (∃ o', stepO D o .strip = .ok o' ∧ o'.ps = o.ps ∧ o'.scalar = o.scalar) ∧
+    (∀ r, (stepO D o (.red r)).map TObj.toTVal = reduce r o.toTVal) ∧
+    (∀ op v, (stepO D o (.ar op v)).map TObj.toTVal = arith op o.toTVal v) := by
+  refine ⟨fun u c => ?_, fun u => ?_, fun k => ?_, ?_, fun r => ?_, fun op v => ?_⟩
+  · rw [stepO_wrap hD]; rfl
+  · rw [stepO_conv hD]; rfl
+  · exact ⟨_, stepO_view hD o k, rfl, rfl⟩
+  · obtain ⟨a, _, e⟩ := stepO_strip hD o
+    exact ⟨_, e, rfl, rfl⟩
+  · by_cases he : o.ps.isEmpty = true
+    · simp [stepO, reduce, he, TObj.toTVal, Except.map]
+    · have he0 : o.ps.isEmpty = false := by simpa using he
+      rw [stepO_red hD o h r he0]
+      simp only [reduce, TObj.toTVal, he0, Bool.false_eq_true, if_false, Except.map]
+      cases r <;> rfl
+  · have hl := (history_reads_in_own_unit D hD o h [] o (by simp [trace]) v).2.1 op
+    simpa [stepO] using hl
+
+/-- the discipline of a `copy=False` fast path that returns `data.view(cls)` after setting only the label -/
+def Discipline.fastPath : Discipline :=
+  { Discipline.current with
+    new := fun c t => if !c && t then [⟨.arg, .unset⟩] else Discipline.current.new c t }
+
+/-- COUNTEREXAMPLE for that discipline: it is not consistent, and `TimeArray(t_ms, time_unit='s', copy=False) + 1`
+says seconds but adds 10⁹ ps (one millisecond); today's discipline adds 10¹² ps -/
+theorem stale_factor_counterexample :
+    Discipline.fastPath.consistent = false ∧
+    (let o := lastO Discipline.fastPath ⟨[0, 5], false, ⟨.ms, factor .ms⟩⟩ [.wrap (some .s) false, .view (.item 1)]
+     o.attrs.label = .s ∧ o.attrs.fac = 10^9 ∧ o.attrs.fac ≠ factor o.attrs.label ∧
+     (arithO Discipline.fastPath .add o (.bare true [.int 1])).toOption.map (·.ps) = some [5 + 10^9]) ∧
+    (let o := lastO Discipline.current ⟨[0, 5], false, ⟨.ms, factor .ms⟩⟩ [.wrap (some .s) false, .view (.item 1)]
+     o.attrs.label = .s ∧ o.attrs.fac = factor .s ∧
+     (arithO Discipline.current .add o (.bare true [.int 1])).toOption.map (·.ps) = some [5 + 10^12]) := by
+  decide
+
 /-! non-vacuity: concrete non-trivial states meeting the hypotheses -/
 example : toPs .m (.flt (11/5)) = 132000000000000 := by decide +kernel
 example : toPs .s (.int 3) = toPs .ms (.int 3000) := (unit_ladder 3).1 ▸ rfl
 example : ∃ r, arith .sub ⟨[5, 7], .ms, false⟩ (.bare true [.int 1]) = .ok r ∧ r.ps = [5 - 1000000000, 7 - 1000000000] :=
   ⟨_, rfl, by decide⟩
 example : ((reduce .ptp ⟨[3, -2, 9], .us, false⟩).toOption.map (·.ps)) = some [11] := by decide
+example : (trace Discipline.current (TObj.ofTVal ⟨[1, 2, 3], .ms, false⟩)
+    [.wrap (some .s) false, .view (.slice 0 3 2), .conv .us, .red .sum, .ar .add (.bare true [.int 2])]).map
+      (fun o => (o.ps, o.attrs.label, o.attrs.fac)) =
+    [([1, 2, 3], .ms, 10^9), ([1, 2, 3], .s, 10^12), ([1, 3], .s, 10^12), ([1, 3], .us, 10^6), ([4], .us, 10^6),
+     ([2000004], .us, 10^6)] := by decide
 
 end Nitime.C01.Props
